@@ -214,6 +214,10 @@ fn proto_box(c: &Value, rep: &mut Report, perturb: usize) -> Mis {
     let i0 = jint(c, "i0") as usize - 1;
     let (stat, dzero) = (jarr(c, "stat"), jarr(c, "dzero"));
     let mut s = f.initiate(&meas[i0].0);
+    // the specification has one measurement "angle 0": a box without angle and a box with angle Some(0.0) are that same
+    // measurement, so a second filter state fed with the other encoding must stay equal to the first
+    let twin = |b: &Universal2DBox| if b.angle.is_none() { Universal2DBox::new(b.xc, b.yc, Some(0.0), b.aspect, b.height) } else { b.clone() };
+    let mut s2 = f.initiate(&twin(&meas[i0].0));
     let mut seen: Vec<f64> = vec![];
     let (m0, c0) = s.verif_raw();
     if let Some(m) = stationary("box:initiate", &m0, &meas[i0].1, perturb).or_else(|| cov_facts("box:initiate", &c0, perturb, &mut seen)) {
@@ -224,6 +228,16 @@ fn proto_box(c: &Value, rep: &mut Report, perturb: usize) -> Mis {
         let name = op[0].as_str().expect("op name");
         let j = ji(&op[1]) as usize;
         let who = format!("box:{}", match name { "p" => "predict", "u" => "update", _ => "distance" });
+        match name {
+            "p" => s2 = f.predict(&s2),
+            "u" => s2 = f.update(&s2, &twin(&meas[j - 1].0)),
+            _ => {
+                let (d1, d2) = (f.distance(s, &meas[j - 1].0), f.distance(s2, &twin(&meas[j - 1].0)));
+                if d1.to_bits() != d2.to_bits() && !(d1.is_nan() && d2.is_nan()) {
+                    return Some((format!("{}:a box without angle is not measured as angle 0", who), json!({"none": d1, "zero": d2, "op": k})));
+                }
+            }
+        }
         match name {
             "p" => s = f.predict(&s),
             "u" => s = f.update(&s, &meas[j - 1].0),
@@ -239,6 +253,10 @@ fn proto_box(c: &Value, rep: &mut Report, perturb: usize) -> Mis {
             o => panic!("op {}", o),
         }
         let (mean, cov) = s.verif_raw();
+        let (mean2, cov2) = s2.verif_raw();
+        if mean.iter().zip(mean2.iter()).chain(cov.iter().zip(cov2.iter())).any(|(a, b)| a.to_bits() != b.to_bits() && !(a.is_nan() && b.is_nan())) {
+            return Some((format!("{}:a box without angle is not measured as angle 0", who), json!({"none": mean, "zero": mean2, "op": k})));
+        }
         if ji(&stat[k]) == 1 {
             rep.count("proto_stationary_state_checked", 1);
             if let Some(m) = stationary(&who, &mean, &meas[i0].1, perturb) {
